@@ -406,7 +406,9 @@ func (gang *Gang) setChild(pod *v1.Pod) {
 	} else {
 		klog.V(6).Infof("UpdateChild, gangName: %v, childName: %v", gang.Name, podId)
 	}
-	if pod.Spec.NodeName == "" && gang.WaitingForBindChildren[podId] == nil {
+	// A pod that is already recorded as bound must not re-enter PendingChildren: the informer may
+	// deliver an older version of the pod (node name still empty) after PostBind.
+	if pod.Spec.NodeName == "" && gang.WaitingForBindChildren[podId] == nil && gang.BoundChildren[podId] == nil {
 		_, pendingExisted := gang.PendingChildren[podId]
 		gang.PendingChildren[podId] = pod
 		if !pendingExisted {
